@@ -1,5 +1,264 @@
-import GraphrsModel.Obs
+/-
+  C01 — mutations follow GraphSpecs exactly; a rejected operation changes nothing.
+
+  `Abs.step` (Spec/Abs.lean) is the abstract machine written from the statement of C01.  The
+  theorems show that the concrete model of `struct Graph` (all twelve indexes, `Store.step`)
+  simulates it on every history, for every GraphSpecs record (the 96 combinations are a
+  quantified variable), and that the coupling invariant `Store.wf` holds on every reachable state.
+-/
+import GraphrsModel.Spec.Inv
+import GraphrsModel.Lemmas.Refine
+import GraphrsModel.Lemmas.Frame
 namespace Graphrs
-/-- placeholder while the framework is brought up: replaced by the property theorems -/
-theorem C01_run_nil (sp : Specs) : (Abs.run sp []).2 = [] := rfl
+
+/-- Two abstract graphs are the same graph: same node list, and for every key the same list of
+    edges in the same order (the order *between* different keys is the iteration order of a hash
+    map and carries no meaning). -/
+def AbsEq (a b : Abs) : Prop :=
+  a.nodes = b.nodes ∧ ∀ k : Nat × Nat, a.edges.filter (fun e => (e.u, e.v) == k) = b.edges.filter (fun e => (e.u, e.v) == k)
+
+/-! ### the part of the invariant this file is responsible for: node indexes and edge stores -/
+
+/-! ### helpers -/
+
+private theorem wf_parts {s : Store} (h : s.wf = true) :
+    s.NodesInv ∧ s.EdgesInv ∧ s.adjOk = true ∧ s.vecOk = true := by
+  simp only [Store.wf, Bool.and_eq_true] at h
+  exact ⟨(Store.nodesOk_iff s).mp h.1.1.1, (Store.edgesOk_iff s).mp h.1.1.2, h.1.2, h.2⟩
+
+private theorem absEq_iff {s : Store} (he : s.EdgesInv) (a : Abs) : AbsEq s.abs a ↔ s.Refines a :=
+  Store.absEq_iff_refines he a
+
+
+theorem C01_new_wf (sp : Specs) : (Store.new sp).wf = true := by
+  rfl
+
+theorem C01_addNode_nodesOk_edgesOk (s : Store) (n : Node) (h : s.wf = true) :
+    (s.addNode n).nodesOk = true ∧ (s.addNode n).edgesOk = true := by
+  obtain ⟨hn, he, _, _⟩ := wf_parts h
+  exact ⟨(Store.nodesOk_iff _).mpr (Store.addNode_nodesInv hn n), (Store.edgesOk_iff _).mpr (Store.addNode_edgesInv hn he n)⟩
+
+theorem C01_addEdge_nodesOk_edgesOk (s : Store) (e : Edge) (h : s.wf = true) :
+    (s.addEdge e).1.nodesOk = true ∧ (s.addEdge e).1.edgesOk = true := by
+  obtain ⟨hn, he, hadj, hvec⟩ := wf_parts h
+  obtain ⟨h1, h2⟩ := Store.addEdge_inv hn he hadj hvec e
+  exact ⟨(Store.nodesOk_iff _).mpr h1, (Store.edgesOk_iff _).mpr h2⟩
+
+theorem C01_specs_unchanged (s : Store) (op : Op) : (s.step op).1.specs = s.specs := by
+  exact Store.step_specs s op
+
+/-! ### refinement of the abstract machine -/
+
+/-- re-adding an existing node only replaces its attributes and keeps its position; a new node is appended -/
+theorem C01_addNode_refines (s : Store) (n : Node) (a : Abs) (h : s.wf = true) (ha : AbsEq s.abs a) :
+    AbsEq (s.addNode n).abs (a.addNode n) := by
+  obtain ⟨hn, he, _, _⟩ := wf_parts h
+  rw [absEq_iff (Store.addNode_edgesInv hn he n)]
+  exact Store.addNode_refines' hn ((absEq_iff he a).mp ha) n
+
+/-- **one `add_edge` call**: same outcome (Ok / SelfLoopsFound / NodeNotFound / DuplicateEdge) and same resulting graph -/
+theorem C01_addEdge_refines (s : Store) (e : Edge) (a : Abs) (h : s.wf = true) (ha : AbsEq s.abs a) :
+    (s.addEdge e).2 = (Abs.addEdge s.specs a e).2 ∧ AbsEq (s.addEdge e).1.abs (Abs.addEdge s.specs a e).1 := by
+  obtain ⟨hn, he, hadj, hvec⟩ := wf_parts h
+  obtain ⟨h1, h2⟩ := Store.addEdge_refines' hn he hadj hvec ((absEq_iff he a).mp ha) e
+  exact ⟨h1, (absEq_iff (Store.addEdge_inv hn he hadj hvec e).2 _).mpr h2⟩
+
+/-- **a call that returns an error leaves the graph exactly as it was** - all twelve indexes -/
+theorem C01_addEdge_error_unchanged (s : Store) (e : Edge) (k : ErrKind) (h : s.wf = true)
+    (herr : (s.addEdge e).2 = some k) : (s.addEdge e).1 = s := by
+  obtain ⟨hn, he, hadj, hvec⟩ := wf_parts h
+  exact Store.addEdge_error_unchanged' hn he hadj hvec e k herr
+
+/-- a batch applies exactly the prefix that precedes the first failing edge -/
+theorem C01_addEdges_prefix (s s' : Store) (es : List Edge) (k : ErrKind)
+    (herr : s.addEdges es = (s', some k)) :
+    ∃ pre e post mid, es = pre ++ e :: post ∧ s.addEdges pre = (mid, none) ∧ mid.addEdge e = (s', some k) := by
+  induction es generalizing s with
+  | nil => simp [Store.addEdges] at herr
+  | cons e es ih =>
+    cases hr : s.addEdge e with
+    | mk s1 o =>
+      cases o with
+      | none =>
+        have h1 : s.addEdges (e :: es) = s1.addEdges es := by simp only [Store.addEdges, hr]
+        rw [h1] at herr
+        obtain ⟨pre, e', post, mid, h2, h3, h4⟩ := ih s1 herr
+        refine ⟨e :: pre, e', post, mid, by rw [h2]; rfl, ?_, h4⟩
+        simp only [Store.addEdges, hr]; exact h3
+      | some k' =>
+        have h1 : s.addEdges (e :: es) = (s1, some k') := by simp only [Store.addEdges, hr]
+        rw [h1] at herr
+        exact ⟨[], e, es, s, rfl, rfl, by rw [hr]; exact herr⟩
+
+theorem C01_addEdges_ok (s : Store) (es : List Edge) (hok : (s.addEdges es).2 = none) :
+    (s.addEdges es).1 = es.foldl (fun st e => (st.addEdge e).1) s := by
+  induction es generalizing s with
+  | nil => rfl
+  | cons e es ih =>
+    cases hr : s.addEdge e with
+    | mk s1 o =>
+      cases o with
+      | none =>
+        have h1 : s.addEdges (e :: es) = s1.addEdges es := by simp only [Store.addEdges, hr]
+        rw [h1] at hok ⊢
+        rw [List.foldl_cons, hr]
+        exact ih s1 hok
+      | some k' =>
+        have h1 : s.addEdges (e :: es) = (s1, some k') := by simp only [Store.addEdges, hr]
+        rw [h1] at hok; cases hok
+
+/-! ### every history -/
+
+/-- the hypothesis of `C01_step_sim`: the other two clauses are re-established by every mutation -/
+private abbrev Rest : Prop :=
+  ∀ (t : Store) (o : Op), t.wf = true → (t.step o).1.nodesOk = true → (t.step o).1.edgesOk = true →
+    (t.step o).1.adjOk = true ∧ (t.step o).1.vecOk = true
+
+private theorem wf_step (hrest : Rest) {t : Store} (o : Op) (ht : t.wf = true)
+    (h1 : (t.step o).1.nodesOk = true) (h2 : (t.step o).1.edgesOk = true) : (t.step o).1.wf = true := by
+  obtain ⟨h3, h4⟩ := hrest t o ht h1 h2
+  simp only [Store.wf, Bool.and_eq_true]
+  exact ⟨⟨⟨h1, h2⟩, h3⟩, h4⟩
+
+private theorem addNode_sim (hrest : Rest) (s : Store) (a : Abs) (n : Node) (h : s.wf = true) (ha : AbsEq s.abs a) :
+    (s.addNode n).wf = true ∧ AbsEq (s.addNode n).abs (a.addNode n) := by
+  obtain ⟨h1, h2⟩ := C01_addNode_nodesOk_edgesOk s n h
+  exact ⟨wf_step hrest (.addNode n) h h1 h2, C01_addNode_refines s n a h ha⟩
+
+private theorem addNodes_sim (hrest : Rest) (ns : List Node) (s : Store) (a : Abs) (h : s.wf = true)
+    (ha : AbsEq s.abs a) : (s.addNodes ns).wf = true ∧ AbsEq (s.addNodes ns).abs (a.addNodes ns) := by
+  induction ns generalizing s a with
+  | nil => exact ⟨h, ha⟩
+  | cons n ns ih =>
+    obtain ⟨h1, h2⟩ := addNode_sim hrest s a n h ha
+    exact ih (s.addNode n) (a.addNode n) h1 h2
+
+private theorem addEdge_sim (hrest : Rest) (s : Store) (a : Abs) (e : Edge) (h : s.wf = true) (ha : AbsEq s.abs a) :
+    (s.addEdge e).2 = (Abs.addEdge s.specs a e).2 ∧ (s.addEdge e).1.wf = true ∧
+      AbsEq (s.addEdge e).1.abs (Abs.addEdge s.specs a e).1 := by
+  obtain ⟨h1, h2⟩ := C01_addEdge_nodesOk_edgesOk s e h
+  obtain ⟨h3, h4⟩ := C01_addEdge_refines s e a h ha
+  exact ⟨h3, wf_step hrest (.addEdge e) h h1 h2, h4⟩
+
+private theorem addEdges_sim (hrest : Rest) (es : List Edge) (s : Store) (a : Abs) (h : s.wf = true)
+    (ha : AbsEq s.abs a) :
+    (s.addEdges es).2 = (Abs.addEdges s.specs a es).2 ∧ (s.addEdges es).1.wf = true ∧
+      AbsEq (s.addEdges es).1.abs (Abs.addEdges s.specs a es).1 := by
+  induction es generalizing s a with
+  | nil => exact ⟨rfl, h, ha⟩
+  | cons e es ih =>
+    cases hr : s.addEdge e with
+    | mk s1 o =>
+      cases hr' : Abs.addEdge s.specs a e with
+      | mk a1 o' =>
+        have hsim := addEdge_sim hrest s a e h ha
+        have hsp := Store.addEdge_specs s e
+        rw [hr, hr'] at hsim
+        rw [hr] at hsp
+        obtain ⟨h1, h2, h3⟩ := hsim
+        simp only at h1 h2 h3 hsp
+        subst h1
+        cases o with
+        | none =>
+          have e1 : s.addEdges (e :: es) = s1.addEdges es := by simp only [Store.addEdges, hr]
+          have e2 : Abs.addEdges s.specs a (e :: es) = Abs.addEdges s.specs a1 es := by
+            simp only [Abs.addEdges, hr']
+          rw [e1, e2, ← hsp]
+          exact ih s1 a1 h2 h3
+        | some k =>
+          have e1 : s.addEdges (e :: es) = (s1, some k) := by simp only [Store.addEdges, hr]
+          have e2 : Abs.addEdges s.specs a (e :: es) = (a1, some k) := by simp only [Abs.addEdges, hr']
+          rw [e1, e2]
+          exact ⟨rfl, h2, h3⟩
+
+/-- The simulation step, assuming the remaining clauses of the invariant (adjacency sets and traversal
+    lists; proved in Props/C02.lean and Props/C03.lean) are re-established by every mutation. -/
+theorem C01_step_sim (s : Store) (a : Abs) (op : Op)
+    (hrest : ∀ (t : Store) (o : Op), t.wf = true → (t.step o).1.nodesOk = true → (t.step o).1.edgesOk = true →
+      (t.step o).1.adjOk = true ∧ (t.step o).1.vecOk = true)
+    (h : s.wf = true) (ha : AbsEq s.abs a) :
+    (s.step op).2 = (Abs.step s.specs a op).2 ∧ (s.step op).1.wf = true ∧ AbsEq (s.step op).1.abs (Abs.step s.specs a op).1 := by
+  cases op with
+  | addNode n =>
+    obtain ⟨h1, h2⟩ := addNode_sim hrest s a n h ha
+    exact ⟨rfl, h1, h2⟩
+  | addNodes ns =>
+    obtain ⟨h1, h2⟩ := addNodes_sim hrest ns s a h ha
+    exact ⟨rfl, h1, h2⟩
+  | addEdge e => exact addEdge_sim hrest s a e h ha
+  | addEdgeTuple u v => exact addEdge_sim hrest s a _ h ha
+  | addEdges es => exact addEdges_sim hrest es s a h ha
+  | addEdgeTuples es => exact addEdges_sim hrest _ s a h ha
+  | newFrom ns es =>
+    have h0 : (Store.new s.specs).wf = true := C01_new_wf s.specs
+    have a0 : AbsEq (Store.new s.specs).abs ({} : Abs) := ⟨rfl, fun _ => rfl⟩
+    obtain ⟨h1, a1⟩ := addNodes_sim hrest ns _ _ h0 a0
+    have hsim := addEdges_sim hrest es _ _ h1 a1
+    have hsp : ((Store.new s.specs).addNodes ns).specs = s.specs := Store.addNodes_specs _ _
+    rw [hsp] at hsim
+    simp only [Store.step, Store.newFrom, Abs.step]
+    cases hr : ((Store.new s.specs).addNodes ns).addEdges es with
+    | mk s1 o =>
+      cases hr' : Abs.addEdges s.specs (({} : Abs).addNodes ns) es with
+      | mk a1' o' =>
+        rw [hr, hr'] at hsim
+        obtain ⟨r2, h2, a2⟩ := hsim
+        simp only at r2 h2 a2
+        subst r2
+        cases o with
+        | none => exact ⟨rfl, h2, a2⟩
+        | some k => exact ⟨rfl, h, ha⟩
+
+private theorem run_gen (sp : Specs) (hrest : Rest) (ops : List Op) (s : Store) (a : Abs)
+    (rs : List (Option ErrKind)) (h : s.wf = true) (ha : AbsEq s.abs a) (hsp : s.specs = sp) :
+    (ops.foldl (fun (acc : Store × List (Option ErrKind)) op =>
+        let (s', r) := acc.1.step op
+        (s', acc.2 ++ [r])) (s, rs)).2 =
+      (ops.foldl (fun (acc : Abs × List (Option ErrKind)) op =>
+        let (a', r) := Abs.step sp acc.1 op
+        (a', acc.2 ++ [r])) (a, rs)).2 ∧
+    (ops.foldl (fun (acc : Store × List (Option ErrKind)) op =>
+        let (s', r) := acc.1.step op
+        (s', acc.2 ++ [r])) (s, rs)).1.wf = true ∧
+    AbsEq (ops.foldl (fun (acc : Store × List (Option ErrKind)) op =>
+        let (s', r) := acc.1.step op
+        (s', acc.2 ++ [r])) (s, rs)).1.abs
+      (ops.foldl (fun (acc : Abs × List (Option ErrKind)) op =>
+        let (a', r) := Abs.step sp acc.1 op
+        (a', acc.2 ++ [r])) (a, rs)).1 := by
+  induction ops generalizing s a rs with
+  | nil => exact ⟨rfl, h, ha⟩
+  | cons op ops ih =>
+    have hsim := C01_step_sim s a op hrest h ha
+    have hsp' := C01_specs_unchanged s op
+    rw [hsp] at hsim
+    cases hr : s.step op with
+    | mk s1 o =>
+      cases hr' : Abs.step sp a op with
+      | mk a1 o' =>
+        rw [hr, hr'] at hsim
+        rw [hr] at hsp'
+        obtain ⟨h1, h2, h3⟩ := hsim
+        simp only at h1 h2 h3 hsp'
+        subst h1
+        simp only [List.foldl_cons, hr, hr']
+        exact ih s1 a1 (rs ++ [o]) h2 h3 (hsp'.trans hsp)
+
+/-- **all histories, all 96 specs**: the results of all calls and the final graph are those of the abstract machine,
+    and the coupling invariant holds at the end -/
+theorem C01_run_refines (sp : Specs) (ops : List Op)
+    (hrest : ∀ (t : Store) (o : Op), t.wf = true → (t.step o).1.nodesOk = true → (t.step o).1.edgesOk = true →
+      (t.step o).1.adjOk = true ∧ (t.step o).1.vecOk = true) :
+    (Store.run sp ops).2 = (Abs.run sp ops).2 ∧ (Store.run sp ops).1.wf = true ∧
+    AbsEq (Store.run sp ops).1.abs (Abs.run sp ops).1 := by
+  exact run_gen sp hrest ops (Store.new sp) {} [] (C01_new_wf sp) ⟨rfl, fun _ => rfl⟩ rfl
+
+/-- non-vacuity: a history with a replaced duplicate, a created node and a rejected self-loop -/
+example :
+    let sp : Specs := ⟨false, false, false, .keepLast, .create, .error⟩
+    let ops := [Op.addEdge ⟨5, 2, some 1, none⟩, Op.addEdge ⟨2, 5, some 7, some 9⟩, Op.addEdgeTuple 3 3]
+    (Store.run sp ops).2 = [none, none, some .SelfLoopsFound] ∧ (Store.run sp ops).1.wf = true ∧
+    (Store.run sp ops).1.allEdges = [⟨2, 5, some 7, some 9⟩] := by
+  decide
+
 end Graphrs
